@@ -413,7 +413,7 @@ Definition run_loop (beh : behaviour) (rm : rmachine) (fuel : nat) (c : cfg) : r
     else drain beh (send_rtc beh rm fuel) rm fuel (set_locked c true) None
   else
     match queue c with
-    | [] => Exn c XIndex
+    | [] => Ok c no_res                  (* nothing queued: nothing to do *)
     | td0 :: q =>
         do (c2, r) <- trigger beh (send_nonrtc beh rm fuel) rm td0 (set_queue c q);
         Ok c2 (match r with Some v => v | None => no_res end)
